@@ -43,13 +43,14 @@ def singleLine (toks : List Nat) : String :=
     let l ← nat; let n ← nat; let ns ← nat; let sched ← nats ns
     pure (if l = 9 then Miros.Gen.singletonLocked else l = 1, n, sched)
   let ((locked, n, sched), _) := p.run toks
-  let rec go : List Nat → Single.State → List String → Single.State × List String
-    | [], s, acc => (s, acc)
-    | t :: ts, s, acc =>
-      match singleMacro locked s t with
-      | some s' => go ts s' (acc ++ [s!"{t}"])
-      | none => go ts s (acc ++ [s!"{t}:DISABLED"])
-  let (s, out) := go sched (Single.init n) []
+  let rec go : List Nat → List Nat → Single.State → List String → Single.State × List String
+    | [], _, s, acc => (s, acc)
+    | t :: ts, begun, s, acc =>
+      if !begun.contains t then go ts (t :: begun) (singleSettle locked 20 s t) (acc ++ [s!"{t}"])
+      else match singleMacro locked s t with
+        | some s' => go ts begun s' (acc ++ [s!"{t}"])
+        | none => go ts begun s (acc ++ [s!"{t}:DISABLED"])
+  let (s, out) := go sched [] (Single.init n) []
   let rets := ",".intercalate (s.threads.map fun t => match t.ret with | some r => toString r | none => "-")
   " ".intercalate out ++ s!" || rets={rets} objects={s.nextObj}"
 
@@ -94,13 +95,14 @@ def regLine (toks : List Nat) : String :=
     let ns ← nat; let sched ← nats ns
     pure (if l = 9 then Miros.Gen.registryLocked else l = 1, d, progs, sched)
   let ((locked, d, progs, sched), _) := p.run toks
-  let rec go : List Nat → Registry.State → List String → Registry.State × List String
-    | [], s, acc => (s, acc)
-    | t :: ts, s, acc =>
-      match regMacro locked s t with
-      | some s' => go ts s' (acc ++ [s!"{t}"])
-      | none => go ts s (acc ++ [s!"{t}:DISABLED"])
-  let (s, out) := go sched (Registry.init locked d progs) []
+  let rec go : List Nat → List Nat → Registry.State → List String → Registry.State × List String
+    | [], _, s, acc => (s, acc)
+    | t :: ts, begun, s, acc =>
+      if !begun.contains t then go ts (t :: begun) (regSettle locked 50 s t) (acc ++ [s!"{t}"])
+      else match regMacro locked s t with
+        | some s' => go ts begun s' (acc ++ [s!"{t}"])
+        | none => go ts begun s (acc ++ [s!"{t}:DISABLED"])
+  let (s, out) := go sched [] (Registry.init locked d progs) []
   " ".intercalate out ++ " || dict=" ++ ",".intercalate (s.dict.map fun x => s!"{x.1}:{x.2}")
 
 /-! ### thread-safe attribute -/
@@ -149,13 +151,14 @@ def tsaLine (toks : List Nat) : String :=
     let ns ← nat; let sched ← nats ns
     pure (if l = 9 then Miros.Gen.tsaFlagPerThread else l = 1, (v0 : Int), progs, sched)
   let ((pt, v0, progs, sched), _) := p.run toks
-  let rec go : List Nat → Tsa.State → List String → Tsa.State × List String
-    | [], s, acc => (s, acc)
-    | t :: ts, s, acc =>
-      match tsaMacro pt s t with
-      | some s' => go ts s' (acc ++ [s!"{t}"])
-      | none => go ts s (acc ++ [s!"{t}:DISABLED"])
-  let (s, out) := go sched (Tsa.init v0 progs) []
+  let rec go : List Nat → List Nat → Tsa.State → List String → Tsa.State × List String
+    | [], _, s, acc => (s, acc)
+    | t :: ts, begun, s, acc =>
+      if !begun.contains t then go ts (t :: begun) (tsaSettle pt 50 s t) (acc ++ [s!"{t}"])
+      else match tsaMacro pt s t with
+        | some s' => go ts begun s' (acc ++ [s!"{t}"])
+        | none => go ts begun s (acc ++ [s!"{t}:DISABLED"])
+  let (s, out) := go sched [] (Tsa.init v0 progs) []
   let own := match s.owner with | some o => toString o | none => "-"
   " ".intercalate out ++ s!" || value={s.value} owner={own} count={s.count} err={if s.err then 1 else 0} done={if s.threads.all (fun t => t.stmts.isEmpty) then 1 else 0}"
 
